@@ -359,3 +359,8 @@ mod tests {
         assert_eq!(map.breaks.len(), 1);
     }
 }
+
+// Verification hook (compiled only by `cargo kani`, which sets `--cfg kani`).
+#[cfg(kani)]
+#[path = "/verif/harness/mania_convert.rs"]
+pub(crate) mod verif_harness;
